@@ -1284,6 +1284,8 @@ func (s *Scorch) removeBoltFileWriterIDs(ids map[string]struct{}) error {
 }
 
 func (s *Scorch) removeOldData() {
+	verifPoint("purge.begin")
+	defer verifPoint("purge.end")
 	removed, err := s.removeOldBoltSnapshots()
 	if err != nil {
 		s.fireAsyncError(NewScorchError(
